@@ -776,7 +776,8 @@ class Operation:
             input_tens = self.inputs[0]
             size_tens = self.inputs[1]
             assert len(size_tens.ops) == 1 and size_tens.ops[0].type == Op.Const
-            sizes = size_tens.values
+            # the sizes are completed below: work on a copy, the constant may be shared with other operators
+            sizes = size_tens.values.copy()
 
             axis_tens = self.inputs[2]
             assert len(axis_tens.ops) == 1 and axis_tens.ops[0].type == Op.Const
